@@ -25,7 +25,7 @@ CASE_TIMEOUT = {"quick": 40, "thorough": 120}
 
 
 def budget(tier):
-    return 800 if tier == "quick" else 8000
+    return 1500 if tier == "quick" else 15000
 
 
 def gen_case(rng, tier, k):
